@@ -204,7 +204,7 @@ static void b_getopt(void)
 	verdict = spec_resolve(in_path, 0, &want, &wi);
 	got = cfg_getopt(&t_root, in_path);
 	if (verdict != RS_SILENT) {
-		CHECK("C11", got == want, "a path addresses exactly the option reached by walking the tree one level at a time");
+		CHECK("C11,C09", got == want, "a path addresses exactly the option reached by walking the tree one level at a time");
 		CHECK("C11,C06", got != NULL || (k_ctxflags & CFGF_IGNORE_UNKNOWN) || g_diag >= 1 || in_path[0] == 0, "an unresolved path is reported (unless unknown options are ignored)");
 	}
 	CHECK("C11", t_rootopts[1].nvalues == NSEC && t_rootopts[0].nvalues == 0 && t_rootopts[1].values == (NSEC ? t_vals : NULL), "resolving a path changes nothing in the tree");
@@ -230,7 +230,7 @@ static void b_getsec(void)
 		if (stray_tail && verdict == RS_NONE)
 			KFCHECK("C11-section-path-stray-tail-resolves", "C11", got == NULL, "a section path with a stray separator or '=' after its last step does not resolve");
 		else
-			CHECK("C11", got == (verdict == RS_OK ? wsec : NULL), "a section path addresses exactly the instance reached by walking the tree one level at a time (unqualified = first instance)");
+			CHECK("C11,C09", got == (verdict == RS_OK ? wsec : NULL), "a section path addresses exactly the instance reached by walking the tree one level at a time (unqualified = first instance)");
 	}
 }
 void h_getsec_path(void)
@@ -291,7 +291,7 @@ static void b_getopt_array(_Bool multi, _Bool has_instance)
 		_Bool silent = 0;
 		for (unsigned i = 0; i + 1 < PATHN; i++) if (in_path[i] == '|' && in_path[i + 1] == '|') silent = 1;
 		if (in_path[0] == '|') silent = 1;
-		if (!silent) CHECK("C14,C11", got == want, "a schema path resolves to the declared option: inside a multi section to the template its instances are copied from, inside a single section to its instance");
+		if (!silent) CHECK("C14,C11,C16", got == want, "a schema path resolves to the declared option: inside a multi section to the template its instances are copied from, inside a single section to its instance");
 	}
 }
 void h_getopt_array(void)
